@@ -398,6 +398,29 @@ def proc_cases(rng, tier, ifaces):
     return out
 
 
+def fit_oracle(line, case):
+    """a bounded writer with room for the terminated response receives all of it (the same bytes as every other writer)"""
+    if is_crash(line):
+        return 'crash'
+    f = parse_fields(line)
+    if f.get('out') != hx(case.meta['resp']) or parse_list(f.get('errs', '[]')):
+        return f"expected the complete response {case.meta['resp']!r} and no error"
+    return None
+
+
+def fit_cases():
+    """queries with known responses into heapless writers of every small capacity, in particular the exact fit"""
+    out = []
+    known = [(b'*IDN?\n', b'"MICROSCPI,TEST,1,1.0"\n'), (b'ARB?\n', b'#15a\nb;c\n'), (b'CHAR?\n', b'VOLT\n'), (b'ECHO:U8? 7\n', b'7\n'),
+             (b'ECHO:I16? -1234\n', b'-1234\n'), (b"ECHO:STR? 'a\"b'\n", b'"a""b"\n'), (b'ECHO:BYTES? #13xyz\n', b'#13xyz\n'),
+             (b'ECHO:PAIR? 12,"ab"\n', b'12,"ab"\n'), (b'ECHO:U8? 1;:ECHO:U8? 22\n', b'1\n22\n')]
+    for msg, resp in known:
+        for cap in list(range(0, 17)) + [24, 32]:
+            if len(resp) <= cap:
+                out.append(Case(f'RUN echo hl{cap} {hx(msg)}', fit_oracle, {'resp': resp, 'kind': 'RUN-fit'}))
+    return out
+
+
 def corpus_cases(ifaces):
     return [Case(f'RUN echo pt {hx(b"ECHO:STR? " + bytes([39]) + b"a" + bytes([34]) + b"b" + bytes([39, 10]))}', run_query_oracle,
                  {'shape': 1, 'values': [('str', b'a"b')], 'kind': 'corpus-D6'}),
@@ -405,4 +428,4 @@ def corpus_cases(ifaces):
 
 
 def cases(tier, rng, ifaces):
-    return resp_cases(rng, tier) + run_cases(rng, tier, ifaces) + proc_cases(rng, tier, ifaces)
+    return resp_cases(rng, tier) + run_cases(rng, tier, ifaces) + proc_cases(rng, tier, ifaces) + fit_cases()
